@@ -238,6 +238,11 @@ class Producer(object):
         except Exception:
             return fail()
 
+        if self.stopping:
+            # stop() has failed (or is failing) every outstanding send and nothing
+            # more will be transmitted: a request queued now would never fire.
+            return fail(Failure(tid_CancelledError()))
+
         d = Deferred(self._cancel_send_messages)
         self._batch_reqs.append(SendRequest(topic, key, msgs, d))
         self._waitingMsgCount += msg_cnt
